@@ -123,7 +123,7 @@ def gen_putfo_case(rng):
     mrs = rng.choice([1, 2, 3, 4, 5, 8])
     mode = rng.random()
     if mode < 0.15:
-        nchunks = rng.randrange(60, 130)           # enough requests to cross the drain threshold
+        nchunks = rng.randrange(60, 180)           # enough requests to cross the drain threshold
         chunks = [bytes(rng.randrange(256) for _ in range(rng.choice([1, 1, 2]))) for _ in range(nchunks)]
         mrs = 1
     else:
@@ -131,11 +131,12 @@ def gen_putfo_case(rng):
     nwrites = sum((len(c) + mrs - 1) // mrs for c in chunks)
     fault = rng.random()
     env = []
+    ready_from = rng.choice([0, 0, 101, 129, 150, 200, 240]) if nwrites > 60 else 0
     for i in range(nwrites):
         code = 0
         if fault < 0.6 and rng.random() < (0.35 if nwrites < 20 else 0.02):
             code = rng.choice([1, 2, 3, 4, 5, 6, 7, 8, 9])
-        env.append((rng.random() < 0.6, code))
+        env.append((i >= ready_from and rng.random() < 0.6, code))
     if fault > 0.9 and env:
         env = env[:rng.randrange(len(env))]     # exhausted script: the rest is accepted
     open_rp = (102, 0) if rng.random() < 0.9 else rng.choice([(101, 2), (101, 3), (101, 0), (105, 0)])
@@ -260,6 +261,13 @@ def scripted_part(ctx, n):
         dict(mrs=1, chunks=[bytes([k % 251 + 1]) for k in range(130)], confirm=True,
              env=[(k >= 110, 4 if k == 60 else 0) for k in range(130)], open_rp=(102, 0), close_rp=(101, 0),
              stat=None, callback=False),
+        # a server that answers late: nothing readable until 150 / 260 requests are outstanding
+        dict(mrs=1, chunks=[bytes([k % 251 + 1]) for k in range(200)], confirm=False,
+             env=[(k >= 150, 3 if k == 3 else 0) for k in range(200)], open_rp=(102, 0), close_rp=(101, 0), stat=None,
+             callback=False),
+        dict(mrs=1, chunks=[bytes([k % 251 + 1]) for k in range(300)], confirm=True,
+             env=[(k >= 260, 4 if k == 20 else 0) for k in range(300)], open_rp=(102, 0), close_rp=(101, 0), stat=None,
+             callback=False),
         dict(mrs=8, chunks=[b"abcd", b"efgh", b"ij"], confirm=True, env=[], open_rp=(102, 0), close_rp=(101, 0),
              stat=None, callback=True, file_size=4),
         dict(mrs=8, chunks=[b"abcd", b"efgh", b"ij"], confirm=False, env=[], open_rp=(102, 0), close_rp=(101, 0),
@@ -272,7 +280,7 @@ def scripted_part(ctx, n):
         src = b"".join(k["chunks"])
         rejected = any(code != 0 for _, code in k["env"])
         ctx.count(("putfo", repr(k)), nontrivial=len(k["chunks"]) > 0,
-                  kind="scripted-putfo:" + ("witness" if j < 6 else "rejecting" if rejected else "accepting") +
+                  kind="scripted-putfo:" + ("witness" if j < 8 else "rejecting" if rejected else "accepting") +
                   (":confirm" if k["confirm"] else ""))
         case = {k2: (v if k2 != "chunks" else [bytes(c) for c in v]) for k2, v in k.items()}
         honest = k["stat"] is None
@@ -679,8 +687,10 @@ def many_writes_part(ctx, wd, rounds):
             sock = sess.sftp.sock
             orig_ready = sock.recv_ready
 
+            late = [0, 40, 90][rnd % 3]      # a server that answers late: nothing readable for the first calls
+
             def recv_ready():
-                r = orig_ready()
+                r = orig_ready() and len(readies) >= late
                 readies.append(r)
                 return r
 
@@ -692,7 +702,7 @@ def many_writes_part(ctx, wd, rounds):
                 del sock.recv_ready
             case = {"op": "putfo", "size": size, "max_request_size": 1000, "writes": (size + 999) // 1000,
                     "fail_write_index": pos, "code": code, "confirm": confirm,
-                    "drain_taken": any(readies)}
+                    "drain_taken": any(readies), "recv_ready_false_for_first_calls": late}
             ctx.count(("many", repr(case)), kind="live-upload:many-small-writes")
             if st == "hang":
                 ctx.fail("upload-hangs", "an upload did not complete under the watchdog", case=case)
